@@ -442,8 +442,12 @@ class FunctionReference:
         assert isinstance(qualified_name, str), "Qualified name must be a str"
 
         # Parse information from the string
+        # Module and function names contain neither ":" nor "#" and a cluster name contains
+        # no "#", so the name is split at the first separators: everything after the first
+        # "#" is the version, which may itself contain ":", "::" or "#".
         match = re.match(
-            r"((?P<cluster>.*)::)?(?P<module>.*):(?P<function>[^#]*)(#(?P<version>.*))?",
+            r"((?P<cluster>[^#]*?)::)?(?P<module>[^:#]*):(?P<function>[^:#]*)"
+            r"(#(?P<version>.*))?$",
             qualified_name,
         )
         if not match:
